@@ -367,10 +367,38 @@ def r195(ctx, fx):
                         "the breakpoints of the file sent last exist and those of the other files are run over", sb[0].where)
 
 
+def r196(ctx, fx):
+    rid = ctx.rule("R19.6", "what `evaluate` shows is the machine's state at the moment of the request: on every path from the entry of the evaluation helper to the "
+                   "call of Evaluator::evaluate_expression the registers and the flags are fetched from the machine adapter and written into the `cpu.*` symbols "
+                   "(MachineAdapter::registers, MachineAdapter::flags, SymbolTable::ensure_cpu_symbols: MIR must-pass) — a refresh that is skipped `when nothing "
+                   "can have changed` shows the registers of an earlier stop at the same address")
+    fns = [f for f in fx.all_fns("mos") if "::tests::" not in f.path and f.blocks and f.path.startswith("mos::debugger") and
+           any(lib.pm(lib.callee(t)[0], "Evaluator::<'a>::evaluate_expression") or lib.norm(lib.callee(t)[0] or "").endswith("Evaluator::evaluate_expression")
+               for _, t in lib.calls(f))]
+    if not fns:
+        ctx.fail_closed(rid, "no function of the debugger evaluates an expression")
+        return
+    for f in sorted(fns, key=lambda f: f.path):
+        evs = [bi for bi, t in lib.calls(f) if lib.norm(lib.callee(t)[0] or "").endswith("evaluate_expression")]
+        key = "%s|fresh-registers" % f.path
+        miss = []
+        for what in ("MachineAdapter::registers", "MachineAdapter::flags", "ensure_cpu_symbols"):
+            through = [bi for bi, t in lib.calls(f) if lib.norm(lib.callee(t)[0] or "").endswith(what.split("::")[-1]) and what.split("::")[0] in (lib.callee(t)[0] or "")
+                       or lib.norm(lib.callee(t)[0] or "").endswith("::" + what)]
+            if not through or not all(lib.must_pass(f, through, e) for e in evs):
+                miss.append(what)
+        ctx.inst(rid, key, sample={"fn": f.path, "evaluations": len(evs), "not_on_every_path": miss})
+        if miss:
+            ctx.finding(rid, key, "%s can evaluate an expression without having fetched %s on that path: `cpu.a` / `cpu.x` / `cpu.flags.*` then show what they were at "
+                        "an earlier request (two stops at the same address, in a loop, look alike to a state-keyed shortcut)" % (
+                            f.path.rsplit("::", 1)[-1], " / ".join(m.rsplit("::", 1)[-1] for m in miss)), f.where)
+
+
 def run(ctx):
     fx = ctx.facts
     r194(ctx, fx)
     r195(ctx, fx)
+    r196(ctx, fx)
     r191(ctx, fx)
     r192(ctx, fx)
     r193(ctx, fx)
